@@ -67,6 +67,15 @@ CHECKS["C08"] = ("other",
     "reasons obtained by reading the code).",
     "site enumeration over the resolved call graph with discharge rules and reviewed tables (no execution)", "DESIGN.md §5 C08")
 
+CHECKS["C16"] = ("other",
+    "Both test reporters take their statuses from root_scope + eval_rules_file (validate's core) and match them through "
+    "get_by_rules + get_status_result; get_status_result's matching table is decided by a monitor (non-SKIP expectation met iff "
+    "some definition has it; SKIP expectation never met when a definition is non-SKIP and decided only after all definitions, "
+    "using the counter<=iterations<=len argument); the passed/failed/skipped bucket written for (expectation present, matched) "
+    "is exact in both reporters. Exit codes are covered by C06. Not claimed: equality of the serde_yaml test-input loader with "
+    "validate's loader; byte-level agreement of the renderings (serde/quick-xml).",
+    TB % "c16", "who-calls + monitors via abstract interpretation of MIR (no execution)", "DESIGN.md §5 C16")
+
 NOT_APPLICABLE = {
 }
 
